@@ -32,3 +32,8 @@ reg('C17', 'exploration', 'X (exhaustive input enumerator)', 'bounded exhaustive
     'Indexing of tainted and tainted_volatile fixed-size arrays (lengths 1..16, 2-D shapes, 7 element types whose guest size differs from the host) is executed with every value of every 8/16-bit index type and boundary/aliasing values of 32/64-bit index types, plain and wrapped; abort iff out of range, otherwise exact element address under the right layout and a canary-checked store.',
     'Aborts observed via the custom-abort flag; wider index types are boundary/aliasing-complete, not value-complete.',
     'DESIGN.md section 3, C17')
+
+reg('C16', 'exploration', 'X (exhaustive input enumerator, differential)', 'bounded exhaustive differential enumeration against the plain C++ expression',
+    'Every operator RLBox offers on numeric wrappers is instantiated for every wrapper combination and operand type pair and evaluated on all 65536 value pairs of 8-bit operands and a boundary set otherwise; the wrapped expression must have the documented wrapper type over decltype(plain expression), a bit-identical value and identical operand updates. Undefined plain cases are removed by an exact reference predicate.',
+    'Plain C++ semantics are taken from the same compiler; only combinations that compile are compared (per-operator rebuild fallback when a tree stops offering one); floats on finite boundary values only.',
+    'DESIGN.md section 3, C16')
